@@ -1,11 +1,14 @@
 package main
 
 import (
+	"bytes"
 	"fmt"
 	"go/ast"
+	"go/printer"
 	"go/token"
 	"sort"
 	"strconv"
+	"strings"
 )
 
 // C13: the POP3 command table (handler.go: var commands) and fingerprints of the session code.
@@ -103,8 +106,115 @@ func genPop3Consts(repo string) (string, error) {
 		return true
 	})
 	sort.Strings(any)
-	out += "Definition pop3_anystate : list (list N) :=\n  " + coqStrList(any) + ".\n"
+	out += "Definition pop3_anystate : list (list N) :=\n  " + coqStrList(any) + ".\n\n"
+	// the reply sites: first word of what every send(...) of a function writes, in source order
+	for _, h := range []struct{ fn, def string }{
+		{"Server.startSession", "pop3_loop_sends"},
+		{"Session.authorizationHandler", "pop3_auth_sends"},
+		{"Session.transactionHandler", "pop3_trans_sends"},
+		{"Session.sendMessage", "pop3_retr_sends"},
+		{"Session.sendMessageTop", "pop3_top_sends"},
+		{"Session.ooSeq", "pop3_ooseq_sends"},
+	} {
+		d := findFunc(f, h.fn)
+		if d == nil {
+			return "", fmt.Errorf("%s not found", h.fn)
+		}
+		out += "Definition " + h.def + " : list (list N) :=\n  " + coqStrList(sendHeads(d)) + ".\n\n"
+	}
+	// the conditions that govern STLS, as source text
+	fsetF, fF, err := parseFile(repo, "pkg/server/pop3/handler.go")
+	if err != nil {
+		return "", err
+	}
+	conds, err := tlsConds(fsetF, fF)
+	if err != nil {
+		return "", err
+	}
+	out += "Definition pop3_capa_stls_cond : list N := " + coqStr(conds[0]) + ".\n"
+	out += "Definition pop3_stls_unavailable_cond : list N := " + coqStr(conds[1]) + ".\n"
+	out += "Definition pop3_stls_already_cond : list N := " + coqStr(conds[2]) + ".\n"
 	return out, nil
+}
+
+// sendHeads: for every call x.send(arg) in d, the first word of the string it writes
+// ("+OK", "-ERR", ".", a capability word; "<expr>" when the argument is not a literal / Sprintf of a literal).
+func sendHeads(d *ast.FuncDecl) []string {
+	var out []string
+	ast.Inspect(d, func(n ast.Node) bool {
+		ce, ok := n.(*ast.CallExpr)
+		if !ok {
+			return true
+		}
+		se, ok := ce.Fun.(*ast.SelectorExpr)
+		if !ok || se.Sel.Name != "send" || len(ce.Args) != 1 {
+			return true
+		}
+		lit := func(e ast.Expr) (string, bool) {
+			bl, ok := e.(*ast.BasicLit)
+			if !ok || bl.Kind != token.STRING {
+				return "", false
+			}
+			s, err := strconv.Unquote(bl.Value)
+			return s, err == nil
+		}
+		head := "<expr>"
+		if s, ok := lit(ce.Args[0]); ok {
+			head = strings.SplitN(s, " ", 2)[0]
+		} else if c2, ok := ce.Args[0].(*ast.CallExpr); ok && len(c2.Args) > 0 {
+			if s, ok := lit(c2.Args[0]); ok {
+				head = strings.SplitN(s, " ", 2)[0]
+			}
+		}
+		out = append(out, head)
+		return true
+	})
+	return out
+}
+
+// tlsConds returns, as printed source: the condition under which CAPA sends "STLS", and the two
+// refusal conditions of the STLS case (the if statements whose body sends "-ERR TLS unavailable ..." /
+// "-ERR A TLS session already agreed upon.").
+func tlsConds(fset *token.FileSet, f *ast.File) ([]string, error) {
+	res := make([]string, 3)
+	show := func(e ast.Expr) string {
+		var b bytes.Buffer
+		printer.Fprint(&b, fset, e)
+		return b.String()
+	}
+	sends := func(body *ast.BlockStmt, prefix string) bool {
+		found := false
+		ast.Inspect(body, func(n ast.Node) bool {
+			if bl, ok := n.(*ast.BasicLit); ok && bl.Kind == token.STRING {
+				if s, err := strconv.Unquote(bl.Value); err == nil && strings.HasPrefix(s, prefix) {
+					found = true
+				}
+			}
+			return true
+		})
+		return found
+	}
+	ast.Inspect(f, func(n ast.Node) bool {
+		is, ok := n.(*ast.IfStmt)
+		if !ok {
+			return true
+		}
+		switch {
+		case len(is.Body.List) == 1 && sends(is.Body, "STLS") && !sends(is.Body, "-ERR"):
+			res[0] = show(is.Cond)
+		case sends(is.Body, "-ERR TLS unavailable"):
+			res[1] = show(is.Cond)
+		case sends(is.Body, "-ERR A TLS session already"):
+			res[2] = show(is.Cond)
+		}
+		return true
+	})
+	for i, r := range res {
+		if r == "" {
+			return nil, fmt.Errorf("TLS condition %d not found in handler.go", i)
+		}
+	}
+	return res, nil
 }
 
 // switchCases returns the string case labels of the single `switch <tag>` statement of a function.
